@@ -186,6 +186,7 @@ static Outcome evaluate(const Tape &t, unsigned cpu_limit) {
   }
   int status = 0;
   while (waitpid(pid, &status, 0) < 0 && errno == EINTR) {}
+  if (h_after_case_parent) h_after_case_parent();
   if (WIFEXITED(status) && WEXITSTATUS(status) == 0) { o.kind = g_shm->discarded ? Outcome::DISCARD : Outcome::OK; return o; }
   if (WIFSIGNALED(status) && (WTERMSIG(status) == SIGXCPU || WTERMSIG(status) == SIGKILL)) { o.kind = Outcome::TIMEOUT; o.signature = "hang"; o.msg = "CPU limit exceeded"; return o; }
   o.kind = Outcome::FAIL;
